@@ -1761,3 +1761,165 @@ def eom_complete(ctx, rule="R-EOM-COMPLETE"):
         ctx.holds(rule, inst, "%d completing path(s), %d dropping path(s) none of which a legal acknowledge selects" % (done, drop))
     else:
         ctx.unknown(rule, "completion path not found in %s" % f.qual)
+
+
+def dm14_steps(ctx, rule="R-DM14-STEPS"):
+    """the steps of a DM14 transaction that nothing else in the code makes up for (each one, left out, ends the transaction in a time-out,
+    leaves an object in a state from which the next operation fails, or reports a wrong / no error):
+    server  - the operation-complete DM15 is sent from WAIT_OPERATION_COMPLETE with the closing-DM14 handler registered; respond() stores
+              the state / status / error information it is given; reset_query returns to IDLE;
+    client  - on operation complete: closing DM14, IDLE, result handed to the waiting caller; a key request without algorithm wakes the caller
+              with an exception; the read path swaps the DM15 handler for the DM16 handler and back;
+    facade  - a refusal (proceed callback, wrong key) is answered through the server's busy path, then everything is reset;
+              respond() takes its listener off the bus for the transfer, puts it back afterwards and returns to IDLE first."""
+    P = ctx.prog
+    CAS = field("_ca")
+
+    def calls(r, pred):
+        return [(i, e) for i, e in r.effects() if e.kind == "call" and pred(e.value)]
+
+    def sub_call(kind, cb):
+        return lambda v: v[1] == ("attr", CAS, kind) and v[2] == (("attr", SELF, cb),)
+
+    def stores(r, name, base=SELF):
+        return [(i, e) for i, e in r.effects() if e.kind == "store" and e.target == ("attr", base, name)]
+    res = {}
+
+    def note(inst, ok, fn, node, why):
+        if ok:
+            res.setdefault(inst, None)
+        elif res.get(inst) is None:
+            res[inst] = (fn, node, why)
+    soc = enumv(ctx, "ResponseState", "SEND_OPERATION_COMPLETE")
+    woc = enumv(ctx, "ResponseState", "WAIT_OPERATION_COMPLETE")
+    spr = enumv(ctx, "ResponseState", "SEND_PROCEED")
+    ser = enumv(ctx, "ResponseState", "SEND_ERROR")
+    sidle = enumv(ctx, "ResponseState", "IDLE")
+    # ---- server
+    f = P.func(S, "_send_dm15")
+    for r in runs(ctx, f):
+        if r.term in ("raise", "exc"):
+            continue
+        if any(p and g[0] == "cmp" and g[1] == "==" and ("p", "state") in (g[2], g[3]) and soc in (g[2], g[3]) for g, p in lits(r.guards())):
+            snd = calls(r, lambda v: v[1] == ("attr", CAS, "send_pgn"))
+            st = [i for i, e in stores(r, "state") if e.value == woc]
+            note("server: the operation-complete DM15 leaves in the state WAIT_OPERATION_COMPLETE", bool(st) and bool(snd) and st[0] < snd[0][0], f,
+                 r.recs[-1].ev.node, "the closing DM14 then meets a state that has no arm for it: ValueError in the receive path, the server never returns to IDLE")
+    for fn in P.cls(S).methods.values():
+        for r in runs(ctx, fn):
+            for i, e in calls(r, lambda v: mname(v) == "_send_dm15"):
+                a, kw = e.value[2], dict(e.value[3])
+                stt = a[3] if len(a) > 3 else kw.get("state")
+                if stt == soc:
+                    subs = [j for j, _ in calls(r, sub_call("subscribe", "parse_dm14")) if j < i]
+                    note("server %s: the closing-DM14 handler is registered when the operation-complete DM15 goes out" % fn.name, bool(subs), fn, e.node,
+                         "the requester's closing DM14 is not handled: the server stays in WAIT_OPERATION_COMPLETE and answers every later request 'busy'")
+    f = P.func(S, "respond")
+    seen_states = set()
+    for r in runs(ctx, f):
+        if r.term in ("raise", "exc"):
+            continue
+        from .common import ife_alts
+        st = [e.value for _, e in stores(r, "state")]
+        for v_ in st:
+            for a_ in ife_alts(v_):
+                seen_states.add(a_)
+                if a_[0] == "sub" and a_[1][0] in ("tuple", "list"):
+                    seen_states |= set(a_[1][1])
+        note("server respond(): the state to answer from is stored on every path", bool(st) and (all(a_ in (spr, ser) for a_ in ife_alts(st[-1])) or
+             not is_const(st[-1])), f, r.recs[-1].ev.node,
+             "the answer goes out from whatever state the object was in: a refusal is sent as 'proceed'")
+        for fld in ("error", "edcp"):
+            v = [e.value for _, e in stores(r, fld)]
+            note("server respond(): %s is taken from the argument" % fld, bool(v) and v[-1] == ("p", fld), f, r.recs[-1].ev.node,
+                 "the error DM15 carries the value of an earlier call: the client reports a wrong error code / no error")
+        v = [e.value for _, e in stores(r, "status")]
+        note("server respond(): the status follows the `proceed` argument", bool(v) and contains(v[-1], ("p", "proceed")) or
+             (bool(v) and any(contains(g, ("p", "proceed")) for g, _ in r.guards())), f, r.recs[-1].ev.node,
+             "the DM15 carries the status of an earlier call")
+    note("server respond(): both SEND_PROCEED and SEND_ERROR are reachable", {spr, ser} <= seen_states, f, f.node,
+         "one of the two answers is never given")
+    f = P.func(S, "reset_query")
+    for r in runs(ctx, f):
+        if r.term in ("raise", "exc"):
+            continue
+        note("server reset_query: the state returns to IDLE", any(e.value == sidle for _, e in stores(r, "state")), f, f.node,
+             "after a wrong key / refusal the server keeps its old state: the next well-formed request fails")
+    # ---- client
+    qidle = enumv(ctx, "QueryState", "IDLE")
+    f = P.func(Q, "_parse_dm15")
+    DQ, EQ = ("attr", field("data_queue"), "put"), ("attr", field("exception_queue"), "put")
+    for r in runs(ctx, f):
+        if r.term in ("raise", "exc"):
+            continue
+        oc = calls(r, lambda v: mname(v) in ("_send_operation_complete",))
+        if oc:
+            i0 = oc[0][0]
+            note("client: operation complete -> state IDLE", any(e.value == qidle for _, e in stores(r, "state")), f, oc[0][1].node,
+                 "the query object stays in WAIT_FOR_OPER_COMPLETE")
+            note("client: operation complete -> the result is handed to the waiting caller",
+                 bool(calls(r, lambda v: v[1] == DQ and v[2] == (field("mem_data"),))), f, oc[0][1].node,
+                 "read() / write() wait for the result until their time-out and return nothing")
+        if any(g == mk_cmp("==", field("_seed_from_key"), ("c", None)) and p for g, p in lits(r.guards())):
+            note("client: key requested but no algorithm -> caller woken with an exception", bool(calls(r, lambda v: v[1] == DQ)) and
+                 bool(calls(r, lambda v: v[1] == EQ)), f, r.recs[-1].ev.node, "the caller waits for its time-out and gets no error")
+    f = P.func(Q, "_wait_for_data")
+    wdm16 = enumv(ctx, "QueryState", "WAIT_FOR_DM16")
+    for r in runs(ctx, f):
+        if r.term in ("raise", "exc") or calls(r, lambda v: mname(v) == "_send_dm16"):
+            continue
+        note("client read path: WAIT_FOR_DM16, DM15 handler off, DM16 handler on", any(e.value == wdm16 for _, e in stores(r, "state")) and
+             bool(calls(r, sub_call("unsubscribe", "_parse_dm15"))) and bool(calls(r, sub_call("subscribe", "_parse_dm16"))), f, r.recs[-1].ev.node,
+             "the DM16 with the read data is not handled (or the DM15 handler stays registered and is registered again later: the operation "
+             "complete is then processed twice and the second closing DM14 starts a new transaction in the server)")
+    f = P.func(Q, "_parse_dm16")
+    woper = enumv(ctx, "QueryState", "WAIT_FOR_OPER_COMPLETE")
+    for r in runs(ctx, f):
+        if r.term in ("raise", "exc") or not stores(r, "mem_data"):
+            continue
+        note("client DM16: handler swapped back, WAIT_FOR_OPER_COMPLETE", any(e.value == woper for _, e in stores(r, "state")) and
+             bool(calls(r, sub_call("unsubscribe", "_parse_dm16"))) and bool(calls(r, sub_call("subscribe", "_parse_dm15"))), f, r.recs[-1].ev.node,
+             "the operation-complete DM15 is not handled: read() returns after its time-out without the closing DM14")
+    # ---- facade
+    f = P.func(M, "_listen_for_dm14")
+    srv = field("server")
+    for r in runs(ctx, f):
+        if r.term in ("raise", "exc"):
+            continue
+        errs = [(i, e) for i, e in r.effects() if e.kind == "store" and e.target == ("attr", srv, "error") and e.value != ("c", 0)]
+        if not errs:
+            continue
+        i0 = errs[0][0]
+        busy_on = [i for i, e in calls(r, lambda v: v[1] == ("attr", srv, "set_busy") and v[2] == (("c", True),)) if i >= i0]
+        busy_off = [i for i, e in calls(r, lambda v: v[1] == ("attr", srv, "set_busy") and v[2] == (("c", False),)) if i >= i0]
+        parse = [i for i, e in calls(r, lambda v: v[1] == ("attr", srv, "parse_dm14")) if i >= i0]
+        cleared = [i for i, e in r.effects() if e.kind == "store" and e.target == ("attr", srv, "error") and e.value == ("c", 0) and i > i0]
+        ok = bool(busy_on) and bool(parse) and bool(busy_off) and busy_on[0] <= parse[-1] <= busy_off[-1] and any(p_ >= busy_on[0] for p_ in parse)
+        note("facade refusal: the frame is run through the server's busy path (error DM15), busy taken back, error indicator cleared",
+             ok and bool(cleared), f, errs[0][1].node,
+             "the client gets no error DM15 (it times out instead of raising the error code), or the server stays busy / keeps the error "
+             "indicator for the next, unrelated, busy answer")
+    f = P.func(M, "respond")
+    LST = ("attr", SELF, "_listen_for_dm14")
+    didle = enumv(ctx, "DMState", "IDLE")
+    for r in runs(ctx, f):
+        if r.term in ("raise", "exc"):
+            continue
+        sr = calls(r, lambda v: v[1] == ("attr", srv, "respond"))
+        if not sr:
+            continue
+        i0 = sr[0][0]
+        un = [i for i, e in calls(r, lambda v: v[1] == ("attr", CAS, "unsubscribe") and v[2] == (LST,)) if i < i0]
+        su = [i for i, e in calls(r, lambda v: v[1] == ("attr", CAS, "subscribe") and v[2] == (LST,)) if i > i0]
+        st = [i for i, e in stores(r, "state") if e.value == didle and i < i0]
+        note("facade respond(): listener off the bus for the transfer, back afterwards, IDLE first", bool(un) and bool(su) and bool(st), f, sr[0][1].node,
+             "the closing DM14 of the transfer reaches the facade's listener as if it were a new request, or the facade never listens again / never "
+             "returns to IDLE")
+    for inst, bad in sorted(res.items()):
+        if bad is None:
+            ctx.holds(rule, inst)
+        else:
+            fn, node, why = bad
+            ctx.violated(rule, fn, inst, "a path does not do this: " + why, node)
+    if len(res) < 12:
+        ctx.unknown(rule, "transaction steps not found (%d)" % len(res))
